@@ -110,6 +110,16 @@ def make_structured(n: int, recipe: dict, dtype: torch.dtype) -> tuple[torch.Ten
         B = torch.randn(k, 2, generator=g, dtype=D)
         A = torch.zeros(n, n, dtype=D)
         A[:k, :k] = B @ B.T
+    elif kind == "newton_unit_start":
+        # constant diagonal d, off-diagonal +-rho*d (A = d[(1-rho) I + rho s s^T], PSD for rho <= 1) with rho chosen so that
+        # ||A + eps I||_F = (r+1)/2 * (d + eps): the coupled Newton iteration's starting matrix M_0 = z (A + eps I), z = (r+1) / (2 ||A + eps I||_F),
+        # then has an exactly unit diagonal although its eigenvalues lie on both sides of one (boundary of the solver's early-exit logic)
+        r, er = float(recipe["root"]), float(recipe.get("eps_rel", 0.0))
+        q = ((r + 1.0) ** 2 / 4.0 - n) / (n * (n - 1.0)) if n > 1 else -1.0
+        rho = (1.0 + er) * math.sqrt(q) if q > 0 else 0.3
+        rho = min(rho, 0.97)
+        sgn = (torch.randint(0, 2, (n,), generator=g).double() * 2 - 1)
+        A = (1.0 - rho) * torch.eye(n, dtype=D) + rho * torch.outer(sgn, sgn)
     if recipe.get("psd"):
         # diagonally dominant => positive semi-definite (properties that quantify over PSD input only)
         offsum = (A - torch.diag(torch.diagonal(A))).abs().sum(dim=1)
